@@ -1271,7 +1271,12 @@ Expr={expr}"""
         **optimize_kwargs
             Key-word arguments to pass through to `optimize`.
         """
-        df = self.optimize(**optimize_kwargs) if optimize else self
+        if optimize:
+            df = self.optimize(**optimize_kwargs)
+        else:
+            # The graph is built from the lowered expression, so the name (and
+            # divisions) have to come from the lowered expression as well
+            df = new_collection(self.expr.lower_completely())
         return new_dd_object(df.dask, df._name, df._meta, df.divisions)
 
     def to_dask_array(
